@@ -427,3 +427,72 @@ pub fn request_file(stem: &str, text: &str) -> Result<String, String> {
     let main = main.map(|m| format!("{m} {}", strs("imports", &imports)));
     Ok(format!("(requestfile {} {} {required} (setters{}) (output {}) (url {url}) (verb {}) (program{}) {method})", quote(stem), main.ok_or("no struct")?, setters.iter().map(|s| format!(" {s}")).collect::<String>(), quote(&output), quote(&verb), program.iter().map(|s| format!(" {s}")).collect::<String>()))
 }
+
+/// token text without whitespace between tokens, literals kept verbatim
+pub fn toks_keep(t: &impl ToTokens) -> String {
+    fn walk(ts: proc_macro2::TokenStream, out: &mut String) {
+        for tt in ts {
+            match tt {
+                proc_macro2::TokenTree::Group(g) => {
+                    let (a, b) = match g.delimiter() { proc_macro2::Delimiter::Parenthesis => ("(", ")"), proc_macro2::Delimiter::Brace => ("{", "}"), proc_macro2::Delimiter::Bracket => ("[", "]"), proc_macro2::Delimiter::None => ("", "") };
+                    out.push_str(a); walk(g.stream(), out); out.push_str(b);
+                }
+                other => out.push_str(&other.to_string()),
+            }
+        }
+    }
+    let mut s = String::new();
+    walk(t.to_token_stream(), &mut s);
+    s.replace(",>", ">").replace(",)", ")").replace(",]", "]").replace(",}", "}")
+}
+
+/// summary of a generated example program: imports, the client constructor, the declarations, the call
+pub fn example_file(stem: &str, text: &str) -> Result<String, String> {
+    let file = syn::parse_file(text).map_err(|e| format!("syn: {e}"))?;
+    let mut imports: Vec<String> = vec![];
+    let mut main: Option<&syn::ItemFn> = None;
+    for i in &file.items {
+        match i {
+            syn::Item::Use(u) => imports.push(toks(&u.tree)),
+            syn::Item::Fn(f) if f.sig.ident == "main" => main = Some(f),
+            _ => {}
+        }
+    }
+    let main = main.ok_or("no main")?;
+    let mut client = String::new();
+    let mut decls: Vec<String> = vec![];
+    let mut call: Option<&syn::Expr> = None;
+    for st in &main.block.stmts {
+        if let syn::Stmt::Local(l) = st {
+            let name = toks(&l.pat);
+            let Some(init) = &l.init else { continue };
+            if name == "response" { call = Some(&init.expr); }
+            else if client.is_empty() && decls.is_empty() && toks(&init.expr).ends_with("::from_env()") && name == "client" { client = toks(&init.expr).trim_end_matches("::from_env()").to_string(); }
+            else { decls.push(format!("({} {})", quote(&name), quote(&toks_keep(&init.expr)))); }
+        }
+    }
+    // client.method(args).setter(v)...await.unwrap()
+    let mut e = call.ok_or("no response")?;
+    let mut chain: Vec<(String, Vec<&syn::Expr>)> = vec![];
+    loop {
+        match e {
+            syn::Expr::MethodCall(m) => { chain.push((m.method.to_string(), m.args.iter().collect())); e = &m.receiver; }
+            syn::Expr::Await(a) => { e = &a.base; }
+            syn::Expr::Path(_) => break,
+            _ => return Err(format!("unexpected call shape: {}", toks(e))),
+        }
+    }
+    chain.reverse();
+    if chain.last().map(|c| c.0.as_str()) != Some("unwrap") { return Err("no unwrap".into()); }
+    chain.pop();
+    if toks(e) != "client" { return Err(format!("receiver is {}", toks(e))); }
+    let (method, args) = chain.first().ok_or("no method call")?.clone();
+    let args_s = if args.len() == 1 && matches!(args[0], syn::Expr::Struct(_)) {
+        let syn::Expr::Struct(st) = args[0] else { unreachable!() };
+        format!("(struct {}{})", quote(&toks(&st.path)), st.fields.iter().map(|f| format!(" {}", quote(&toks(&f.member)))).collect::<String>())
+    } else {
+        strs("positional", &args.iter().map(|a| toks(*a)).collect::<Vec<_>>())
+    };
+    let setters: Vec<String> = chain[1..].iter().map(|(n, a)| format!("({} {})", quote(n), quote(&a.iter().map(|x| toks_keep(*x)).collect::<Vec<_>>().join(",")))).collect();
+    Ok(format!("(example {} {} (client {}) (decls{}) (method {}) {args_s} (setters{}))", quote(stem), strs("imports", &imports), quote(&client), decls.iter().map(|d| format!(" {d}")).collect::<String>(), quote(&method), setters.iter().map(|d| format!(" {d}")).collect::<String>()))
+}
